@@ -217,13 +217,20 @@ func (p *Prog) Fn(rel, name string) *ssa.Function {
 		if !ok {
 			return nil
 		}
+		var wrapper *ssa.Function
 		for _, t := range []types.Type{types.NewPointer(named), named} {
 			sel := p.SSA.MethodSets.MethodSet(t).Lookup(sp.Pkg, mn)
 			if sel != nil {
-				return p.SSA.MethodValue(sel)
+				fn := p.SSA.MethodValue(sel)
+				if fn != nil && fn.Synthetic == "" {
+					return fn
+				}
+				if wrapper == nil {
+					wrapper = fn
+				}
 			}
 		}
-		return nil
+		return wrapper
 	}
 	return sp.Func(name)
 }
